@@ -23,7 +23,7 @@ VERIFICATION_MESSAGES = (
     "decreases not satisfied", "could not prove termination", "index out of bounds", "possible bit shift underflow/overflow",
     "unable to prove assertion", "recommendation not met", "loop invariant not satisfied", "cannot show invariant",
     "possible truncation", "value may be out of range", "failed this postcondition", "failed precondition",
-    "not all errors may have been reported",
+    "not all errors may have been reported", "unable to prove post-condition of closure", "post-condition of closure",
 )
 INFRA_MESSAGES = ("resource limit", "rlimit", "not supported", "unsupported", "Verus does not", "internal error", "panicked")
 
@@ -73,7 +73,7 @@ def run_verus(path, args, timeout):
     return {"cmd": " ".join(cmd), "rc": rc, "json": js, "diags": parse_diagnostics(se), "stderr": se, "wall_s": wall}
 
 
-def classify(diags):
+def classify(diags, vir_error=False):
     """-> (verification_failures, infra_errors)"""
     vf, infra = [], []
     for d in diags:
@@ -81,9 +81,10 @@ def classify(diags):
         msg = d.get("message", "")
         if msg.startswith("aborting due to"): continue
         low = msg.lower()
-        if any(k.lower() in low for k in INFRA_MESSAGES): infra.append(d)
+        if any(k.lower() in low for k in INFRA_MESSAGES) or d.get("code"): infra.append(d)   # rustc errors carry a code
         elif any(k in low for k in VERIFICATION_MESSAGES): vf.append(d)
-        else: infra.append(d)     # rustc / VIR errors: the emitted text does not even type-check
+        elif vir_error: infra.append(d)
+        else: vf.append(d)        # any other Verus proof-failure wording
     return vf, infra
 
 
@@ -106,7 +107,7 @@ def run_unit(unit_name, ty, repo, workdir, rlimit=30, multiple_errors=6, timeout
     main = run_verus(path, ["--verify-root", "--rlimit", str(rlimit), "--multiple-errors", str(multiple_errors)], timeout)
     res["checker_cmd"] = main["cmd"]
     js = main["json"]
-    vf, infra = classify(main["diags"])
+    vf, infra = classify(main["diags"], bool(js and js.get("verification-results", {}).get("encountered-vir-error")))
     if js is None or main["rc"] == 124:
         res["infra"].append("verus produced no result (rc=%s): %s" % (main["rc"], main["stderr"][-400:]))
     else:
